@@ -59,7 +59,35 @@ type World struct {
 	NodeMsg nodetypes.MsgServer
 	DidMsg  didtypes.MsgServer
 
+	HookNode nodekeeper.Keeper
+	Staking  *NativeStaking
+
 	snaps []sdk.Context
+}
+
+// NativeStaking writes the declared staking facts of a case into the real staking keeper.
+type NativeStaking struct {
+	w       *World
+	ValDels map[string][]string
+}
+
+func (s *NativeStaking) DeclareDelegation(del, val string) {
+	if sym.Bool("staking.del.present") {
+		shares := sym.DecNonNeg("staking.del.shares")
+		s.w.App.StakingKeeper.SetDelegation(s.w.Ctx, stakingtypes.Delegation{DelegatorAddress: del, ValidatorAddress: val, Shares: shares})
+	}
+}
+
+func (s *NativeStaking) DeclareValidator(val string) {
+	if sym.Bool("staking.val.present") {
+		shares := sym.DecNonNeg("staking.val.shares")
+		tokens := sdk.NewIntFromBigInt(sym.NonNegBig("staking.val.tokens"))
+		s.w.App.StakingKeeper.SetValidator(s.w.Ctx, stakingtypes.Validator{OperatorAddress: val, DelegatorShares: shares, Tokens: tokens})
+	}
+}
+
+func (s *NativeStaking) Delegation(ctx sdk.Context, d sdk.AccAddress, v sdk.ValAddress) stakingtypes.DelegationI {
+	return s.w.App.StakingKeeper.Delegation(ctx, d, v)
 }
 
 func (w *World) Height() int64 { return w.Ctx.BlockHeight() }
@@ -207,6 +235,8 @@ func NewWorld() *World {
 	// fresh event manager: only the harness' own calls are observed
 	w.Ctx = ctx.WithEventManager(sdk.NewEventManager())
 	w.Did, w.Order, w.Market, w.Node, w.Model, w.Sao = a.DidKeeper, a.OrderKeeper, a.MarketKeeper, a.NodeKeeper, a.ModelKeeper, a.SaoKeeper
+	w.HookNode = a.NodeKeeper
+	w.Staking = &NativeStaking{w: w, ValDels: map[string][]string{}}
 	w.SaoMsg = saokeeper.NewMsgServerImpl(w.Sao)
 	w.NodeMsg = nodekeeper.NewMsgServerImpl(w.Node)
 	w.DidMsg = didkeeper.NewMsgServerImpl(w.Did)
